@@ -1429,3 +1429,78 @@ func checkC12DefaultChanged(c *Ctx, n int) {
 		})
 	}
 }
+
+// checkC08PartialClash: a command declares again only ONE of the two names of an outer option (the short name with
+// another long name, or the long name without the short one).  Behind the command word the clashing name reaches the
+// command's option; the outer option's OTHER name still reaches the outer option — `app -V add` and `app add -V`
+// are the same.
+func checkC08PartialClash(c *Ctx, n int) {
+	r := c.Rng
+	for i := 0; i < n; i++ {
+		clashShort := r.Intn(2) == 0
+		innerTag := `short:"v" long:"value"`
+		if !clashShort {
+			innerTag = `long:"verbose"`
+		}
+		add := &StructDesc{Fields: []FieldDesc{
+			{Name: "Inner", Exported: true, Kind: "v", Ty: "Lbool", Tag: innerTag},
+			{Name: "X", Exported: true, Kind: "v", Ty: "bool", Tag: `short:"x"`}}}
+		mid := add
+		path := []string{"add"}
+		if r.Intn(2) == 0 {
+			mid = &StructDesc{Fields: []FieldDesc{{Name: "Add", Exported: true, Kind: "s", Sub: add, Tag: `command:"add"`}}}
+			path = []string{"remote", "add"}
+		}
+		root := &StructDesc{Fields: []FieldDesc{
+			{Name: "Outer", Exported: true, Kind: "v", Ty: "Lbool", Tag: `short:"v" long:"verbose"`},
+			{Name: "Cmd", Exported: true, Kind: "s", Sub: mid, Tag: fmt.Sprintf(`command:"%s"`, path[0])}}}
+		cs := &Case{Name: "app", NsDelim: ".", EnvNsDelim: "_"}
+		cs.Build = []BuildOp{{Kind: "addgroup", Target: 1, Short: "Application Options", Struct: root}}
+		// the outer option's name that does NOT clash, and the one that does
+		free, clash := "--verbose", "-v"
+		if !clashShort {
+			free, clash = "-v", "--verbose"
+		}
+		argv := append([]string{}, path...)
+		wantOuter, wantInner := 0, 0
+		for k := 1 + r.Intn(3); k > 0; k-- {
+			if r.Intn(2) == 0 {
+				argv = append(argv, free)
+				wantOuter++
+			} else {
+				argv = append(argv, clash)
+				wantInner++
+			}
+		}
+		if r.Intn(2) == 0 {
+			argv = append([]string{free}, argv...)
+			wantOuter++
+		}
+		cs.Ops = []Op{{Kind: "parse", Args: argv}}
+		cs.Description = describeOps(cs)
+		c.RunCases([]*Case{cs}, func(cr *CaseResult) {
+			c.classifyCase(cr)
+			if cr.Real == nil || cr.Real.dead {
+				return
+			}
+			c.Class(fmt.Sprintf("c08/partial-clash: short-clashes=%v depth=%d", clashShort, len(path)))
+			var obs parseObs
+			for _, o := range parseBlocks(cr) {
+				obs = o
+			}
+			count := func(name string) int {
+				if fr, ok := cr.Real.fields[name]; ok {
+					return fr.val.Len()
+				}
+				return -1
+			}
+			got := fmt.Sprintf("%s %s type %d %q, outer=%d inner=%d", obs.panic, obs.errKind, obs.errType, obs.errMsg, count("Outer"), count("Inner"))
+			want := fmt.Sprintf(" ok type 0 \"\", outer=%d inner=%d", wantOuter, wantInner)
+			in := map[string]interface{}{"case": cs.Description, "argv": argv, "outer_option": "-v, --verbose", "command_declares": innerTag}
+			if got != want {
+				in["case_file"] = c.saveCase(cr)
+			}
+			c.Check("an-outer-option-stays-accepted-under-the-name-the-command-does-not-redeclare", got == want, "C08:partial-clash", in, got, want)
+		})
+	}
+}
